@@ -16,6 +16,17 @@ class Deadline:
 def ddmin(items, test, deadline=None, min_len=0):
     """smallest sublist (order kept) for which test(sublist) holds; assumes test(items)"""
     items = list(items)
+    # long lists: shortest failing prefix first (bisection), far cheaper than chunk removal
+    if len(items) > 64:
+        lo, hi = max(min_len, 0), len(items)
+        while lo < hi and not (deadline and deadline.over()):
+            mid = (lo + hi) // 2
+            if test(items[:mid]):
+                hi = mid
+            else:
+                lo = mid + 1
+        if hi < len(items) and test(items[:hi]):
+            items = items[:hi]
     n = 2
     while len(items) > min_len and len(items) >= 1:
         if deadline and deadline.over():
@@ -43,9 +54,13 @@ def ddmin(items, test, deadline=None, min_len=0):
 def shrink_int(value, lo, test, deadline=None):
     """smallest v in [lo, value] with test(v), by bisection-like descent (test(value) assumed)"""
     best = value
+    if deadline and deadline.over():
+        return best
     # try the floor first, then halve the distance
     cands = [lo, lo + 1, lo + 2]
     for c in cands:
+        if deadline and deadline.over():
+            return best
         if c < best and test(c):
             return c if c == lo else shrink_int(c, lo, test, deadline)
     step = (best - lo) // 2
